@@ -56,7 +56,9 @@ impl Ctx<'_> {
             index: self.base.index,
             batch_seed: 0,
             plan: Some(plan.clone()),
-            choices: choices.map(|c| c.to_vec()),
+            // Same convention as a replay file: an empty list means "the schedule derived from the
+            // plan's seed".
+            choices: choices.filter(|c| !c.is_empty()).map(|c| c.to_vec()),
             tracing: false,
             plan_only: false,
         };
@@ -252,8 +254,12 @@ pub fn minimise(harness: HarnessFn, prop: Prop, tier: Tier, found: &Found, budge
     let mut len = choices.len();
     while len > 0 && ctx.used < ctx.budget {
         let cut = len / 2;
+        if cut == 0 {
+            break; // an empty list would mean "derive the schedule from the seed"
+        }
         let cand: Vec<u32> = choices[..cut].to_vec();
-        match ctx.try_candidate(&plan, &cand) {
+        // Strictly this list (no fall-back to a seed-derived schedule): the file must replay as is.
+        match ctx.try_once(&plan, Some(&cand)) {
             Some((h, d, c)) => {
                 // Keep the short list: re-running it yields the same execution.
                 let _ = c;
@@ -273,7 +279,7 @@ pub fn minimise(harness: HarnessFn, prop: Prop, tier: Tier, found: &Found, budge
 
     // Final confirmation run gives the authoritative trace hash of the minimised case.
     ctx.budget += 1;
-    let (h, d, _) = ctx.try_candidate(&plan, &choices)?;
+    let (h, d, _) = ctx.try_once(&plan, Some(&choices))?;
     let _ = (hash, detail);
     let mut v = found.violation.clone();
     v.detail = d;
